@@ -163,6 +163,13 @@ class ClosureV:
     node: Any                 # ast.FunctionDef | ast.Lambda
     rel: str
     frame: Dict[str, Any]
+    raw: bool = False         # the undecorated body of a decorated module-level function (what a decorator receives)
+
+    def __deepcopy__(self, memo):          # the syntax tree is shared: results of calls that forked are remembered by id(node)
+        c = ClosureV(self.node, self.rel, {}, self.raw)
+        memo[id(self)] = c
+        c.frame = copy.deepcopy(self.frame, memo)
+        return c
 
 
 @dataclass
@@ -170,6 +177,9 @@ class ClassV:
     """a class defined at module level in the repository (plain classes, @dataclass, NamedTuple)"""
     rel: str
     node: Any                 # ast.ClassDef
+
+    def __deepcopy__(self, memo):          # immutable
+        return self
 
 
 @dataclass
@@ -277,6 +287,8 @@ class State:
         self.globals: Dict[Tuple[str, str], Any] = {}     # module-level mutable objects touched in this run (shared by all frames)
         self.versions: Dict[str, int] = {}                # how often a name has been assigned on this path (see branch_value)
         self.unfollowed: List[str] = []                   # calls on this path that were not followed: any of them may have raised instead
+        self.cm: List[Tuple[int, int]] = []               # generator context managers being run: (key into Interp.cm_table, depth of the generator's frame)
+        self.parked: List[Dict[str, Any]] = []            # frames of generator context managers while the body of their `with` runs
 
     @property
     def env(self) -> Dict[str, Any]:
@@ -549,7 +561,16 @@ class Interp:
         return self.run_node(fn, rel, name, args, state, kwargs, None)
 
     def run_node(self, fn: Any, rel: str, name: str, args: List[Any], state: Optional[State], kwargs: Optional[Dict[str, Any]],
-                 outer: Optional[Dict[str, Any]]) -> List[Outcome]:
+                 outer: Optional[Dict[str, Any]], raw: bool = False) -> List[Outcome]:
+        if not raw and not isinstance(fn, ast.Lambda) and core.opaque_decorators(fn):
+            wrapped = self.decorated_value(fn, rel, name, outer)      # _Unmodelled when the decorators cannot be followed
+            if state is None:
+                self.total_steps += self.steps
+                self.steps = 0
+                FORKS_MAX[0] = max(FORKS_MAX[0], FORKS[0])
+                FORKS[0] = 0
+                state = State()
+            return self.run_node(wrapped.node, wrapped.rel, getattr(wrapped.node, "name", name), args, state, kwargs, dict(wrapped.frame), wrapped.raw)
         if state is None:
             # top-level request of a rule module: fresh budget
             self.total_steps += self.steps
@@ -569,18 +590,31 @@ class Interp:
                 env[k] = st.globals[key]
         if outer is not None:
             env.update(outer)          # variables of the enclosing function, as they are now
-        params = fn.args.args + fn.args.kwonlyargs
-        opaque_ = core.opaque_decorators(fn)
-        if opaque_:
-            raise _Unmodelled(f"function {name} is wrapped by {', '.join(opaque_)} at {core.loc(rel, fn)}: what the wrapper does with arguments "
-                              f"and result is not modelled")
-        if any(isinstance(n_, ast.Nonlocal) for n_ in ast.walk(fn)) or fn.args.vararg or fn.args.kwarg:
-            raise _Unmodelled(f"function {name} with nonlocal / *args / **kwargs at {core.loc(rel, fn)}")
+        params = fn.args.posonlyargs + fn.args.args + fn.args.kwonlyargs
+        if any(isinstance(n_, ast.Nonlocal) for n_ in ast.walk(fn)):
+            raise _Unmodelled(f"function {name} with nonlocal at {core.loc(rel, fn)}")
         kw_defaults = {a.arg: d for a, d in zip(fn.args.kwonlyargs, fn.args.kw_defaults) if d is not None}
-        n_pos = len(fn.args.args)
+        n_pos = len(fn.args.posonlyargs) + len(fn.args.args)
         defaults = fn.args.defaults
         nd = len(defaults)
         kwargs = kwargs or {}
+        names_ = {p.arg for p in params}
+        if len(args) > n_pos:
+            if not fn.args.vararg:
+                raise _Raise(ExcV("TypeError", f"{name}() takes {n_pos} positional arguments but {len(args)} were given"), st)
+            env[fn.args.vararg.arg] = TupleV(list(args[n_pos:]))
+        elif fn.args.vararg:
+            env[fn.args.vararg.arg] = TupleV([])
+        extra_kw = {k: v for k, v in kwargs.items() if k not in names_ or k in {p.arg for p in fn.args.posonlyargs}}
+        if extra_kw:
+            if not fn.args.kwarg:
+                raise _Raise(ExcV("TypeError", f"{name}() got an unexpected keyword argument '{sorted(extra_kw)[0]}'"), st)
+            env[fn.args.kwarg.arg] = MapV(dict(extra_kw))
+        elif fn.args.kwarg:
+            env[fn.args.kwarg.arg] = MapV({})
+        for i, p in enumerate(params):
+            if i < len(args) and i < n_pos and p.arg in kwargs and p.arg not in extra_kw:
+                raise _Raise(ExcV("TypeError", f"{name}() got multiple values for argument '{p.arg}'"), st)
         for i, p in enumerate(params):
             if i < len(args) and i < n_pos:
                 env[p.arg] = args[i]
@@ -613,11 +647,62 @@ class Interp:
                 outs.append(Outcome("return", sig[1], s2, sig[2]))
             elif sig[0] == "raise":
                 outs.append(Outcome("raise", sig[1], s2, sig[2]))
+            elif sig[0] == "cmexit":
+                outs.append(Outcome("cmexit", sig[1], s2, fn))
             else:
                 outs.append(Outcome("return", Unknown(f"stray {sig[0]}"), s2, fn))
         for o in outs:
             del o.state.frames[depth - 1:]
         return outs
+
+    def decorated_value(self, fn: ast.FunctionDef, rel: str, name: str, outer: Optional[Dict[str, Any]]) -> "ClosureV":
+        """What the name of a decorated function is bound to: the decorators (functions of the repository) are applied, innermost
+        first, to the undecorated body as they are at import time -- in a state of their own --, and the nested function the last
+        one returns is what a call runs.  Anything else (a decorator that is not a function of the repository, one that forks or
+        raises, a result that is not a function) is a give-up: the caller's obligation stays undecided."""
+        key = (rel, id(fn))
+        cache = self.__dict__.setdefault("_deco_cache", {})
+        if key in cache:
+            if cache[key] is None:
+                raise _Unmodelled(f"function {name} at {core.loc(rel, fn)} is wrapped by a decorator that is not followed")
+            return cache[key]
+        cache[key] = None
+        cur: Any = ClosureV(fn, rel, dict(outer or {}), raw=True)
+        dst = State()
+        dst.env = dict(self.module_env(rel))
+        if outer:
+            dst.env.update(outer)
+        saved_steps = self.steps
+        try:
+            for d in reversed(fn.decorator_list):
+                e_ = d.func if isinstance(d, ast.Call) else d
+                text = core.src(e_)
+                if text in core.BENIGN_DECORATORS or text.split(".")[-1] in ("setter", "getter", "deleter"):
+                    if text.split(".")[-1] in ("lru_cache", "cache"):
+                        continue          # same values; the shared store is the business of C16 / C17
+                    if text.split(".")[-1] in ("wraps", "overload", "final", "no_type_check", "abstractmethod", "staticmethod"):
+                        continue
+                    raise _Unmodelled(f"function {name} under @{text} together with other decorators at {core.loc(rel, fn)}")
+                dv = self.eval(d, dst, rel)                     # @deco -> the function; @deco(..) -> what the call returns
+                call_node = ast.copy_location(ast.Call(func=e_, args=[], keywords=[]), d)
+                if isinstance(dv, FuncRef) and not dv.module.startswith("<"):
+                    cur = self.call_ref(dv, [cur], {}, dst, call_node, rel)
+                elif isinstance(dv, ClosureV):
+                    cur = self.call_closure(dv, [cur], {}, dst, call_node)
+                else:
+                    raise _Unmodelled(f"decorator @{core.src(d)[:60]} of {name} at {core.loc(rel, fn)} is not a function of the repository")
+                if isinstance(cur, FuncRef) and not cur.module.startswith("<"):
+                    tgt = self.sources.func(cur.module, cur.name)
+                    cur = ClosureV(tgt, cur.module, {}, raw=False)
+                if not isinstance(cur, ClosureV):
+                    raise _Unmodelled(f"decorator @{core.src(d)[:60]} of {name} at {core.loc(rel, fn)} does not return a function the analysis can follow")
+        except (_Fork, _Raise) as e:
+            raise _Unmodelled(f"applying the decorators of {name} at {core.loc(rel, fn)} has several outcomes or raises ({type(e).__name__})")
+        finally:
+            self.steps = saved_steps
+        cache[key] = cur
+        self.__dict__.setdefault("decorators_followed", set()).add(f"{rel}:{name}")
+        return cur
 
     # -- statements ---------------------------------------------------------------
     def tick(self):
@@ -669,6 +754,8 @@ class Interp:
         if isinstance(st, ast.Expr):
             if isinstance(st.value, ast.Constant):
                 return [(state, None)]
+            if isinstance(st.value, ast.Yield) and state.cm and state.cm[-1][1] == len(state.frames):
+                return self._cm_yield(st, state, rel)
             if isinstance(st.value, ast.Yield) and state.yields:
                 v = self.eval(st.value.value, state, rel) if st.value.value is not None else NONE
                 state.yields[-1].segs.append(Seg(v, state.binders))
@@ -714,8 +801,13 @@ class Interp:
             return self.exec_for(st, state, rel)
         if isinstance(st, ast.Try):
             return self.exec_try(st, state, rel)
-        if isinstance(st, ast.FunctionDef) and not st.decorator_list:
-            state.env[st.name] = ClosureV(st, rel, state.env)
+        if isinstance(st, ast.With):
+            return self.exec_with(st.items, st.body, state, rel, st)
+        if isinstance(st, ast.FunctionDef) and not core.opaque_decorators(st) and not any(
+                core.src(d.func if isinstance(d, ast.Call) else d).split(".")[-1] in ("lru_cache", "cache", "property", "staticmethod", "classmethod")
+                for d in st.decorator_list):
+            # a nested function, possibly under @functools.wraps(f) (which copies the name and the docstring, nothing else)
+            state.env[st.name] = ClosureV(st, rel, state.env, raw=True)
             return [(state, None)]
         if isinstance(st, ast.Break):
             return [(state, ("break",))]
@@ -928,6 +1020,135 @@ class Interp:
             for s3, sig3 in self.exec_block(st.finalbody, s2, rel):
                 final.append((s3, sig3 if sig3 is not None else sig))
         return final
+
+    # -- with ------------------------------------------------------------------------
+    def _is_lock(self, e: ast.expr, state: State, rel: str) -> bool:
+        """`with NAME:` where NAME is bound once, at module level, to threading.Lock() / RLock(): transparent for one thread"""
+        if not isinstance(e, ast.Name):
+            return False
+        try:
+            tree = self.sources.tree(rel)
+        except core.AnalysisError:
+            return False
+        hits = [n for n in tree.body if isinstance(n, (ast.Assign, ast.AnnAssign))
+                and any(isinstance(t, ast.Name) and t.id == e.id for t in (n.targets if isinstance(n, ast.Assign) else [n.target]))]
+        if len(hits) != 1 or hits[0].value is None or not isinstance(hits[0].value, ast.Call) or hits[0].value.args or hits[0].value.keywords:
+            return False
+        if any(isinstance(n, ast.Global) and e.id in n.names for n in ast.walk(tree)):
+            return False
+        return core.src(hits[0].value.func) in ("threading.Lock", "threading.RLock", "Lock", "RLock", "_threading.Lock", "_threading.RLock")
+
+    def exec_with(self, items, body, state: State, rel: str, node: ast.AST):
+        if len(items) > 1:
+            inner = ast.copy_location(ast.With(items=items[1:], body=body), node)
+            cache = self.__dict__.setdefault("_with_split", {})
+            inner = cache.setdefault((id(node), len(items)), inner)
+            return self.exec_with(items[:1], [inner], state, rel, node)
+        item = items[0]
+        ce = item.context_expr
+        if self._is_lock(ce, state, rel) and item.optional_vars is None:
+            return self.exec_block(body, state, rel)
+        # a generator function under @contextmanager
+        if isinstance(ce, ast.Call):
+            fv = self.eval(ce.func, state, rel)
+            if isinstance(fv, FuncRef) and not fv.module.startswith("<"):
+                try:
+                    fnode = self.sources.func(fv.module, fv.name)
+                except Exception:
+                    fnode = None
+                decos = [core.src(d.func if isinstance(d, ast.Call) else d).split(".")[-1] for d in (fnode.decorator_list if fnode is not None else [])]
+                if fnode is not None and decos == ["contextmanager"]:
+                    args = []
+                    for a in ce.args:
+                        if isinstance(a, ast.Starred):
+                            raise _Unmodelled(f"with-statement: *args at {core.loc(rel, ce)}")
+                        args.append(self.eval(a, state, rel))
+                    kwargs = {}
+                    for k in ce.keywords:
+                        if k.arg is None:
+                            raise _Unmodelled(f"with-statement: **kwargs at {core.loc(rel, ce)}")
+                        kwargs[k.arg] = self.eval(k.value, state, rel)
+                    table = self.__dict__.setdefault("cm_table", {})
+                    key = id(node) * 4 + len(items)
+                    table[key] = (body, item.optional_vars, rel, {"entered": 0})
+                    state.cm.append((key, len(state.frames) + 1))
+                    n_cm = len(state.cm)
+                    outs = self.run_node(fnode, fv.module, fv.name, args, state, kwargs, None, True)
+                    res = []
+                    for o in outs:
+                        s2 = o.state
+                        if len(s2.cm) >= n_cm and s2.cm[n_cm - 1][0] == key:
+                            # the generator ended (returned or raised) without reaching its yield on this path
+                            del s2.cm[n_cm - 1:]
+                            if o.kind == "raise":
+                                res.append((s2, ("raise", o.value, node)))
+                                continue
+                            raise _Unmodelled(f"context manager {fv.name} does not yield on some path ({core.loc(rel, node)})")
+                        if o.kind == "raise":
+                            res.append((s2, ("raise", o.value, node)))
+                        elif o.kind == "cmexit":
+                            res.append((s2, o.value))
+                        else:
+                            res.append((s2, None))
+                    return res
+        cm = self.eval(ce, state, rel)
+        if isinstance(cm, InstV):
+            ent, ext = self.class_member(cm.cls, "__enter__"), self.class_member(cm.cls, "__exit__")
+            if isinstance(ent, ast.FunctionDef) and isinstance(ext, ast.FunctionDef) and not ent.decorator_list and not ext.decorator_list:
+                res = []
+                for o in self.run_node(ent, cm.cls.rel, "__enter__", [cm], state, {}, {}):
+                    if o.kind == "raise":
+                        res.append((o.state, ("raise", o.value, node)))
+                        continue
+                    s1 = o.state
+                    if item.optional_vars is not None:
+                        self.assign(item.optional_vars, o.value, s1, rel)
+                    hidden = f"<cm {id(node)}>"
+                    s1.env[hidden] = cm            # (a fork copies the state: the object is found again through the frame)
+                    for s2, sig in self.exec_block(body, s1, rel):
+                        inst2 = s2.env.pop(hidden, None)
+                        if inst2 is None:
+                            raise _Unmodelled(f"with-statement: the context manager object is lost after a fork ({core.loc(rel, node)})")
+                        if sig is not None and sig[0] == "raise":
+                            exc = sig[1]
+                            xa = [inst2, StrV(getattr(exc, "name", "Exception")) if not isinstance(exc, Unknown) else exc, exc, Unknown("traceback")]
+                            for o2 in self.run_node(ext, cm.cls.rel, "__exit__", xa, s2, {}, {}):
+                                if o2.kind == "raise":
+                                    res.append((o2.state, ("raise", o2.value, node)))
+                                    continue
+                                for truth, s3 in self.branch_value(o2.value, o2.state, core.loc(rel, node), "__exit__ result"):
+                                    res.append((s3, None if truth else sig))
+                        else:
+                            for o2 in self.run_node(ext, cm.cls.rel, "__exit__", [inst2, NONE, NONE, NONE], s2, {}, {}):
+                                if o2.kind == "raise":
+                                    res.append((o2.state, ("raise", o2.value, node)))
+                                else:
+                                    res.append((o2.state, sig))
+                return res
+        raise _Unmodelled(f"with-statement over `{core.src(ce)[:50]}` at {core.loc(rel, node)}")
+
+    def _cm_yield(self, st: ast.Expr, state: State, rel: str):
+        """the `yield` of a generator context manager: the body of the with-statement runs here, in the frame of the function that
+        contains the with-statement; an exception it raises is raised at the yield (so the generator's own try / except / finally
+        see it), a return / break / continue passes through the generator's finally clauses and leaves the with-statement"""
+        key, depth = state.cm.pop()
+        body, target, brel, info = self.cm_table[key]
+        v = self.eval(st.value.value, state, rel) if st.value.value is not None else NONE
+        if len(state.frames) != depth:
+            raise _Unmodelled("context manager: yield outside the generator's own frame")
+        state.parked.append(state.frames.pop())
+        if target is not None:
+            self.assign(target, v, state, brel)
+        out = []
+        for s2, sig in self.exec_block(body, state, brel):
+            s2.frames.append(s2.parked.pop())
+            if sig is None:
+                out.append((s2, None))
+            elif sig[0] == "raise":
+                out.append((s2, sig))
+            else:
+                out.append((s2, ("cmexit", sig)))
+        return out
 
     # -- loops ----------------------------------------------------------------------
     def exec_while(self, st: ast.While, state: State, rel: str):
@@ -2366,7 +2587,7 @@ class Interp:
             return v
         nm_ = getattr(fn.node, "name", "<lambda>")
         outer = {k: v for k, v in fn.frame.items()}
-        outs = self.run_node(fn.node, fn.rel, nm_, args, state, kwargs, outer)
+        outs = self.run_node(fn.node, fn.rel, nm_, args, state, kwargs, outer, fn.raw)
         if len(outs) == 1:
             o = outs[0]
             if o.state is not state:
@@ -2576,14 +2797,25 @@ class Interp:
         args = []
         for a in e.args:
             if isinstance(a, ast.Starred):
-                state.unfollowed.append(f"call with *args at {core.loc(rel, e)}")
-                return Unknown("star-args")
+                sv = self.eval(a.value, state, rel)
+                if isinstance(sv, GenV):
+                    sv = self.materialise(sv, state)
+                its_ = list(sv.items) if isinstance(sv, TupleV) else (self.plain_items(sv) if isinstance(sv, ListV) and not sv.unordered else None)
+                if its_ is None:
+                    state.unfollowed.append(f"call with *args at {core.loc(rel, e)}")
+                    return Unknown("star-args")
+                args.extend(its_)
+                continue
             args.append(self.eval(a, state, rel))
         kwargs = {}
         for k in e.keywords:
             if k.arg is None:
-                state.unfollowed.append(f"call with **kwargs at {core.loc(rel, e)}")
-                return Unknown("**kwargs")
+                kv = self.eval(k.value, state, rel)
+                if not isinstance(kv, MapV) or kv.unknown or kv.factory or kv.name or not all(isinstance(k_, str) for k_ in kv.entries):
+                    state.unfollowed.append(f"call with **kwargs at {core.loc(rel, e)}")
+                    return Unknown("**kwargs")
+                kwargs.update(kv.entries)
+                continue
             kwargs[k.arg] = self.eval(k.value, state, rel)
         if isinstance(fn, FuncRef):
             return self.call_ref(fn, args, kwargs, state, e, rel)
@@ -2631,7 +2863,7 @@ class Interp:
             return self.apply_value(fn.fn, [fn.first] + list(args), state, node, rel)
         if isinstance(fn, ClosureV):
             nm_ = getattr(fn.node, "name", "<lambda>")
-            outs = self.run_node(fn.node, fn.rel, nm_, list(args), state, {}, dict(fn.frame))
+            outs = self.run_node(fn.node, fn.rel, nm_, list(args), state, {}, dict(fn.frame), fn.raw)
             if len(outs) == 1 and outs[0].kind == "return" and outs[0].state is state:
                 return outs[0].value
             raise _Unmodelled(f"callback {nm_} with several outcomes")
